@@ -252,15 +252,17 @@ impl SPDC {
       IdlerBeam::try_new_optimum(&self.signal, &self.pump, &self.crystal_setup, &self.pp)?;
     // keep the same idler waist size
     idler.set_waist(self.idler.waist());
+    // the waist position belongs to the new (optimum) idler, not to the one being replaced
+    let idler_waist_position = self
+      .crystal_setup
+      .optimal_waist_position(idler.vacuum_wavelength(), idler.polarization());
     Ok(Self {
       idler,
       pp,
       signal_waist_position: self
         .crystal_setup
         .optimal_waist_position(self.signal.vacuum_wavelength(), self.signal.polarization()),
-      idler_waist_position: self
-        .crystal_setup
-        .optimal_waist_position(self.idler.vacuum_wavelength(), self.idler.polarization()),
+      idler_waist_position,
       ..self
     })
   }
